@@ -15,7 +15,7 @@ import sys
 from harness import oracles
 
 ID = "C09"
-RULE = ("case = (edge list of a simple graph in arbitrary order/orientation, m0, tie-break ranks, construction paths); the "
+RULE = ("case = (edge list of a simple graph in arbitrary order/orientation, m0 (in 30 % of the cases passed as a numpy integer scalar or a subclass of int), tie-break ranks, construction paths); the "
         "graph reaches the EECC object through every public path - add_edges_from, add_edge, the G setter with a prebuilt "
         "nx.Graph (vertices inserted in an order unrelated to labels, attribute data; or nx.Graph(edge list)), mutation "
         "through the G getter (as the library's EdgeListToNetwork does), re-assignment of G on an object holding other "
@@ -288,7 +288,24 @@ def _feed(net, chunk, path):
         raise ValueError(f"unknown construction path {path}")
 
 
-def _run_once(edges, m0, ranks, labels=None, build=None, big=False, dup=False):
+M0_TYPES = ["np.int64", "np.int32", "np.int16", "np.uint8", "np.intp", "intsub"]
+
+
+class _IntSub(int):
+    """a user-defined subclass of int"""
+
+
+def _m0_value(m0, typ):
+    """m0 in the number type the case asks for (case key "m0type"; default: a Python int)"""
+    if not typ or typ == "int":
+        return m0
+    if typ == "intsub":
+        return _IntSub(m0)
+    import numpy as np
+    return getattr(np, typ[3:])(m0)
+
+
+def _run_once(edges, m0, ranks, labels=None, build=None, big=False, dup=False, m0type=None):
     """one fresh object; `labels` (strictly increasing ints, vertex i -> labels[i]) relabels the graph handed to the
     implementation order-preservingly (non-contiguous / large / negative labels); observations are mapped back;
     `build` = the construction paths, one per consecutive chunk of the edge list (default: one add_edges_from);
@@ -303,7 +320,7 @@ def _run_once(edges, m0, ranks, labels=None, build=None, big=False, dup=False):
     keep = copy.deepcopy(given)
     if build[0] == "late":
         # the bound is set before the graph arrives
-        net.set_max_clique_size(m0)
+        net.set_max_clique_size(_m0_value(m0, m0type))
         build = build[1:] or ["aef"]
         given = _chunks([e for ch in given for e in ch], len(build))
         keep = copy.deepcopy(given)
@@ -316,7 +333,7 @@ def _run_once(edges, m0, ranks, labels=None, build=None, big=False, dup=False):
         for e in flat[:3]:
             net.add_edge((e[1], e[0]))
         net.add_edges_from([(e[1], e[0]) for e in flat[-3:]] + flat[:1])
-    net.set_max_clique_size(m0)
+    net.set_max_clique_size(_m0_value(m0, m0type))
     # a second object with other contents and another bound, built through another path, stays alive while the first is read
     decoy = E.EECC()
     dch = ([(fwd(0) + 1000003, fwd(0) + 1000004), (fwd(0) + 1000004, fwd(0) + 1000005),
@@ -375,7 +392,7 @@ def _contents(steps):
     return out
 
 
-def _run_history(steps):
+def _run_history(steps, m0type=None):
     import gcmpy.covers.eecc as E
     objs, last, out = {}, {}, []
     for st, (es, iso, m0) in zip(steps, _contents(steps)):
@@ -390,7 +407,7 @@ def _run_history(steps):
             net.G = _prebuilt(net, [tuple(e) for e in st[2]], ctor=bool(len(st) > 3 and st[3]), keep=False)
             out.append(None)
         elif st[0] == "m0":
-            net.set_max_clique_size(st[2])
+            net.set_max_clique_size(_m0_value(st[2], m0type))
             out.append(None)
         elif st[0] == "mc":
             with _patched(RankScript([], 10)):
@@ -439,12 +456,12 @@ def impl(case):
             out.append([f.numerator, f.denominator])
         return out
     if mode == "hist":
-        return _run_history(case["steps"])
+        return _run_history(case["steps"], case.get("m0type"))
     edges, m0 = case["edges"], case["m0"]
     labels = case.get("labels")
     build, dup = case.get("build"), bool(case.get("dup"))
     if mode != "all":
-        return _run_once(edges, m0, case.get("ranks", []), labels, build, big=(mode == "big"), dup=dup)
+        return _run_once(edges, m0, case.get("ranks", []), labels, build, big=(mode == "big"), dup=dup, m0type=case.get("m0type"))
     # walk every tie-break sequence of the real code: each run follows `prefix` and then rank 0 to the end, which
     # is one leaf; its siblings at every depth beyond the prefix are pushed
     leaves = []
@@ -452,7 +469,7 @@ def impl(case):
     cap = case.get("cap", LEAF_CAP)
     while stack and len(leaves) < cap:
         prefix = stack.pop()
-        obs = _run_once(edges, m0, prefix, labels, build, dup=dup)
+        obs = _run_once(edges, m0, prefix, labels, build, dup=dup, m0type=case.get("m0type"))
         counts = obs["counts"]
         full = prefix + [0] * (len(counts) - len(prefix))
         leaves.append([full, obs])
@@ -922,6 +939,10 @@ def corpus():
         out.append(_case(big, m0, rk, mode="big", build=b))
     out += [{"edges": [[0, 1]], "m0": 1, "ranks": []}, {"edges": [[0, 1], [1, 2]], "m0": 0, "ranks": []},
             {"edges": [], "m0": 2, "ranks": []}, {"edges": [], "m0": 0, "ranks": []}]
+    # m0 held in another integer type (numpy scalars, a subclass of int)
+    for i, t in enumerate(M0_TYPES):
+        out.append(dict(_case(_kn([0, 1, 2, 3, 4]) + _kn([2, 3, 4, 5, 6]), 2 + i % 4, [1, 2, 0, 3, 1, 0, 2]), m0type=t))
+        out.append(dict(_case(TEST_FIXTURE, 2 + (i + 1) % 3, mode="all", cap=20), m0type=t))
     return out
 
 
@@ -1066,6 +1087,16 @@ def _small_exhaustive(pairs, m0s):
 
 
 def generate(rng, tier):
+    """30 % of all cases (histories and the malformed stream included) pass m0 in another integer type"""
+    import random
+    trng = random.Random(rng.getrandbits(64))
+    for c in _generate1(rng, tier):
+        if c.get("mode") != "float" and trng.random() < 0.3:
+            c["m0type"] = trng.choice(M0_TYPES)
+        yield c
+
+
+def _generate1(rng, tier):
     # every stream of fresh-object cases: half the cases reach the object through another public construction path
     # than one add_edges_from (a mixture of paths over chunks of the edge list, edges handed over twice)
     brng = __import__("random").Random(rng.getrandbits(64))
@@ -1132,6 +1163,17 @@ def _generate(rng, tier):
 
 
 def shrink(case):
+    """smaller cases; the number type of m0 is kept (and dropped as a separate step)"""
+    t = case.get("m0type")
+    for c in _shrink0(case):
+        if t:
+            c["m0type"] = t
+        yield c
+    if t:
+        yield {k: v for k, v in case.items() if k != "m0type"}
+
+
+def _shrink0(case):
     mode = case.get("mode")
     if mode == "float":
         return
